@@ -3,7 +3,7 @@
    `reachable c s` = s is the state after SOME event list accepted by the parallel_safe transition system of
    configuration c (size, instances, argument entries, failing subset): all interleavings of the main thread and
    the member threads, with no bound on anything. *)
-From CF Require Import Common.Bytes C19.Model C19.Proofs C19.Proofs_b C19.Proofs_c C19.Proofs_d C19.Proofs_e C19.Proofs_f.
+From CF Require Import Common.Bytes C19.Model C19.Proofs C19.Proofs_b C19.Proofs_c C19.Proofs_d C19.Proofs_e C19.Proofs_f C19.Proofs_g.
 From Coq Require Import Permutation.
 Open Scope nat_scope.
 
@@ -213,3 +213,30 @@ Theorem C19_keyerror_only_earlier_members : forall c s k, reachable c s -> resul
   args c k = None /\ forall j cl, In (j, cl) (calls s) -> j < k.
 Proof. exact keyerror_only_earlier_members. Qed.
 Print Assumptions C19_keyerror_only_earlier_members.
+
+(* ---- Wave 12: per-member link state.  After open_links a member's link may go down by itself (or the member be
+   closed individually) while the swarm stays open; `srun evs` is the swarm state (_is_open, per-member link flag) after
+   any history of open / close-all / link-down / link-up events.  The runners iterate self._cfs.items() and never look at
+   these flags: the configuration of the run (`restrict c (action_members ...)`) is the whole swarm. *)
+Theorem C19_members_independent_of_link_state : forall c evs,
+  let c' := restrict c (action_members c (srun evs)) in
+  n c' = n c /\ forall k, k < n c -> inst c' k = inst c k /\ args c' k = args c k /\ fails c' k = fails c k.
+Proof. exact members_independent_of_link_state. Qed.
+Print Assumptions C19_members_independent_of_link_state.
+
+(* so a finished swarm-wide action has run exactly once for EVERY member, with its own instance and arguments, whatever
+   the link states *)
+Theorem C19_every_member_once_whatever_links : forall c evs s r,
+  let c' := restrict c (action_members c (srun evs)) in
+  reachable c' s -> result s = Some r -> finished r ->
+  Permutation (map fst (calls s)) (seq 0 (n c)) /\
+  forall k cl, In (k, cl) (calls s) -> exists a, args c k = Some a /\ cl = (inst c k, a).
+Proof. exact every_member_once_whatever_links. Qed.
+Print Assumptions C19_every_member_once_whatever_links.
+
+(* refutation of the variant that leaves out members whose link is down once the swarm is open *)
+Theorem C19_filtered_members_refuted :
+  exists c evs k, k < n c /\ ~ In k (action_members_filtered c (srun evs)) /\
+                  n (restrict c (action_members_filtered c (srun evs))) < n c /\ In k (action_members c (srun evs)).
+Proof. exact filtered_members_refuted. Qed.
+Print Assumptions C19_filtered_members_refuted.
